@@ -290,7 +290,10 @@ def scenario(seed: int, features: Optional[Dict[str, Any]] = None, families=None
         # a target between f(x0) and a rough lower value so that it sometimes fires
         f0 = p.fun(np.clip(p.x0, p.lb, p.ub))
         tv = f0 - abs(f0) * r.choice([0.0, 0.1, 0.5, 2.0]) - r.choice([0.0, 1.0])
-        kw["ftarget"] = tv if ft == "float" else (lambda tv=tv: tv)
+        if ft in ("int", "callable_int"):
+            # an integer target (a legitimate number): floor of the float target, never zero
+            tv = int(np.floor(tv)) or -1
+        kw["ftarget"] = tv if ft in ("float", "int") else (lambda tv=tv: tv)
     if feat.get("gtol_callable", r.random() < 0.2):
         gv = kw["gtol"]
         kw["gtol"] = lambda gv=gv: gv
@@ -311,7 +314,35 @@ def scenario(seed: int, features: Optional[Dict[str, Any]] = None, families=None
         kw["update_fun_def"] = upd_identity
     elif up != "none":
         kw["update_fun_def"] = make_update(up, seed, feat.get("switch_at", r.randint(0, 5)))
+    # --- user-code styles and irrelevant parameters (drawn from a separate stream so that the
+    # choices above are those of earlier versions of the generator)
+    r2 = random.Random(seed * 31 + 5)
+    # (a) a share of the callable gradients fill ONE preallocated work array and return it at
+    # every call (in-place / out= style): the package must not keep a reference to what it got
+    rb = feat.get("reuse_grad_buffer")
+    if rb is None:
+        rb = r2.random() < 0.3
+    if rb and callable(kw.get("jac")):
+        inner, buf = kw["jac"], np.empty(p.n)
+
+        def jac_buf(x, *a, _inner=inner, _buf=buf):
+            _buf[:] = np.atleast_1d(_inner(x, *a))
+            return _buf
+        kw["jac"] = jac_buf
+    else:
+        rb = False
+    # (b) `eps` and `finite_diff_rel_step` only parametrise finite differences: with a callable
+    # gradient any value must leave the run unchanged
+    ie = feat.get("irrelevant_eps")
+    if ie is None:
+        ie = r2.random() < 0.3
+    if ie and mode == "callable":
+        kw["eps"] = r2.choice([1e-3, 1.0, 1e-12, 0.1])
+        kw["finite_diff_rel_step"] = r2.choice([None, 1e-2, 0.5])
+    else:
+        ie = False
     desc = {"seed": seed, "problem": p.desc, "cfg": cfg,
             "features": {"jac": mode, "callback": cb, "ftarget": ft, "scaler": sc, "update": up,
+                         "grad_buffer": bool(rb), "irrelevant_eps": bool(ie),
                          **{k: v for k, v in feat.items() if isinstance(v, (int, float, str))}}}
     return kw, desc, p
